@@ -62,6 +62,10 @@ CLAIMED["C14"] = ("other", "Mixed: (proof) specifiers - 13 Boolean-algebra laws 
                   "returned objects by the canonical-uniqueness lemma whose head/tail/base steps are machine-checked; a & ~a empty and a | ~a universal via witness points; markers - 10 laws up to equivalence as corollaries of the C02 operator law; "
                   "(bounded) law sweep on real objects.", "5 C14", "C01/C05 contracts; list-induction principle for canonical uniqueness; C02 operator law (atom layer bounded); dense order",
                   "corollaries of operator contracts + machine-checked lemmas (z3), bounded law sweep")
+CLAIMED["C10"] = ("other", "Mixed: (frame analysis, decided statically on every run) every memoised function found in the source reads, through its key parameters, only state that ==/hash compare, and the key objects it returns "
+                  "carry no uncompared field that str()/evaluate read - with the memoisation meta-lemma this gives independence from history; (bounded) cold-vs-warm differential of probe operations after generated histories, "
+                  "including operands/results that are equal as keys but built or spelled differently.", "5 C10", "meta-lemma (stated, trusted); annotations used for method resolution; whitelisted lazy cache _specifier",
+                  "frame-condition (read-set) obligations from the AST + bounded cold/warm differential")
 CLAIMED["C15"] = ("other", "Mixed: (proof) the atom-layer operators - EqualityMarkerUnion / InequalityMultiMarker replace/&/|, _merge_single_markers and MarkerExpression &/| on string atoms - never return an atom group with fewer "
                   "than two values (for all names, literals, value sets); (bounded) the normal-form predicate (>= 2 distinct children, no empty/universal/same-kind child, groups of >= 2 values) on every result of the marker sweep. "
                   "The fix-point clause of of() is not expressible as an inductive invariant and stays bounded.", "5 C15", "string atoms only in the proof part; OrderedSet mixin operators modelled through the verified contract of OrderedSet.__init__",
